@@ -437,9 +437,9 @@ class WGen:
                 reqs.append(self.setup(i, upath, sdp, p_ok))
             else:
                 reqs.append(wwrap(self.seq(i), m, g.cseq(i), upath if r.random() < p_ok else g.path(True)))
-        for q in reqs:      # long wrapped request lines, the whole WebSocket message below 4 KiB: over a real WebSocket
-            if q[0] == W_WRAP and r.random() < 0.1:     # DecodeRequest's single Read gets at most gorilla's 4096-byte buffer
-                q[4] += "?t=" + "a" * r.choice([1000, 2500, 3500, 3800])    # (see design/C12.md, C12-r8)
+        for q in reqs:      # long wrapped request lines, below and above gorilla's 4096-byte read buffer and the
+            if q[0] == W_WRAP and r.random() < 0.1:     # 8 KiB pooled buffer of DecodeRequest (see design/C12.md, C12-r8)
+                q[4] += "?t=" + "a" * r.choice([1000, 2500, 3500, 3800, 3990, 4100, 5000, 8100, 8300, 12000])
         return [wspath, env, W_WATCH, reqs]
 
 
@@ -703,14 +703,20 @@ def timeout_stream(ck):
 
 
 
-# ---------------------------------------------------------------- known finding: a WSP message above ~4 KiB
+# ---------------------------------------------------------------- regression: a WSP message above ~4 KiB
 def wsp_long_message_witness(ck):
-    """wsp.DecodeRequest does ONE Read of a message and the WebSocket transport returns at most gorilla's
-    4096-byte read buffer: a wrapped request of ~5000 bytes is truncated, not answered, and the channel closes.
-    The model answers every well-formed request of any length; these fixed cases are failing inputs."""
-    long_url = lambda m: wwrap(2, m, 2, LIVE_A)[:4] + [wwrap(2, m, 2, LIVE_A)[4] + "?t=" + "a" * 5000, ""]
+    """wsp.DecodeRequest used to do ONE Read of a message and the WebSocket transport returns at most gorilla's
+    4096-byte read buffer: a wrapped request of ~5000 bytes was truncated, not answered, and the channel closed
+    (finding wsp-message-over-4k-truncated, fixed in /repo by reading the whole message).  The model answers every
+    well-formed request of any length; these fixed cases (above the 4 KiB read buffer, above the 8 KiB pooled buffer,
+    and a long message after a long message; all below the 16 KiB line limit of the RTSP reader, above which a request is deliberately refused) are compared with the model on every run."""
+    def long_url(seq, m, n):
+        q = wwrap(seq, m, seq, LIVE_A)
+        return q[:4] + [q[4] + "?t=" + "a" * n, ""]
     env = [[LIVE_A, 1, False]]
-    cases = [[LIVE_A, env, W_WATCH, [wmsg(W_INIT, 1), long_url(DESCRIBE), wwrap(3, OPTIONS, 3, LIVE_A)]],
-             [LIVE_A, env, W_WATCH, [wmsg(W_INIT, 1), long_url(OPTIONS), wwrap(3, DESCRIBE, 3, LIVE_A)]]]
-    ck.stream("wsp-long-message", cases, "C12_wsp_run", "C12_wsp", "C12_wsp_ok", compare=False,
-              sig=lambda c, e, o: "wsp-message-over-4k-truncated", timeout=300)
+    cases = [[LIVE_A, env, W_WATCH, [wmsg(W_INIT, 1), long_url(2, DESCRIBE, 5000), wwrap(3, OPTIONS, 3, LIVE_A)]],
+             [LIVE_A, env, W_WATCH, [wmsg(W_INIT, 1), long_url(2, OPTIONS, 5000), wwrap(3, DESCRIBE, 3, LIVE_A)]],
+             [LIVE_A, env, W_WATCH, [wmsg(W_INIT, 1), long_url(2, OPTIONS, 9000), long_url(3, DESCRIBE, 12000),
+                                     wwrap(4, OPTIONS, 4, LIVE_A), long_url(5, OPTIONS, 4090)]]]
+    ck.stream("wsp-long-message", cases, "C12_wsp_run", "C12_wsp", "C12_wsp_ok",
+              sig=lambda c, e, o: "wsp-message-over-4k-truncated", timeout=300, sample=1)
